@@ -297,6 +297,42 @@ mutual
     | (_, x) :: kvs => max x.encFuel (GoVal.encFuelKvs kvs)
 end
 
+/-! `zeroNeverEnds` (nbt/encode.go): would writing the zero value of `t` the way the encoder does — a nil pointer as
+the zero value it could point to — never end, because the type reaches itself through fields that are always
+written? A depth-first search with the struct types ON THE CURRENT PATH (`path`; the Go code adds a type to a map
+before it descends and deletes it afterwards). `getTagType` asks it for a nil pointer; in this universe, where types
+are finite trees, the answer is always "no" (`Lemmas/NBTZero`), which is why `getTagType` above has no such branch. -/
+
+/-- the type at the end of a field's index path inside the ZERO value of a struct type; `none` when the path goes
+through an embedded pointer (nil in a zero value: the encoder skips the field) -/
+def typeAlongZero : List Nat → GoType → Option GoType
+  | [], t => some t
+  | i :: is, .struct _ fields => (fields[i]?).bind fun f => typeAlongZero is f.2
+  | _ :: _, _ => none
+
+def zneFrom : Nat → List GoType → GoType → Bool
+  | 0, _, _ => false
+  | fuel + 1, path, t =>
+    match t with
+    | .raw | .snbt | .dyn => false                        -- a Marshaler writes itself
+    | .ptr e => zneFrom fuel path e
+    | .array n e => decide (n > 0) && zneFrom fuel path e
+    | .struct n fields =>
+      if path.any (· == t) then true else
+      (typeFields (.struct n fields)).any fun fld =>
+        match fld.index with
+        | [] => false                                     -- (no field table has an empty index path)
+        | i :: is =>
+          match typeAlongZero (i :: is) (.struct n fields) with
+          | none => false
+          | some ft =>
+            -- the zero value of an `omitempty` field is empty, except for a struct and a non-empty array
+            if fld.omitEmpty && !(match ft with | .struct _ _ => true | .array k _ => decide (k > 0) | _ => false) then false
+            else zneFrom fuel (t :: path) ft
+    | _ => false
+
+def zeroNeverEnds (t : GoType) : Bool := zneFrom (t.encFuel + 1) [] t
+
 /-- `Encoder.Encode(v, name)`; `v = none` is `Encode(nil, name)` -/
 def encodeF (cx : SnbtCarrier) (fuel : Nat) (network : Bool) (name : Bytes) (v : Option GoVal) : Res Bytes :=
   match v with
@@ -314,5 +350,32 @@ def encodeF (cx : SnbtCarrier) (fuel : Nat) (network : Bool) (name : Bytes) (v :
 
 def encode (cx : SnbtCarrier) (network : Bool) (name : Bytes) (v : Option GoVal) : Res Bytes :=
   encodeF cx (match v with | some x => 2 * x.encFuel + 8 | none => 0) network name v
+
+/-! ### Histories of calls
+
+`Marshal` and `Encoder.Encode` keep nothing between calls that a caller could see: `Marshal` returns bytes of its
+own, an `Encoder` holds its writer and nothing else. So a history is the list of its calls, evaluated one by one. -/
+
+/-- one call `Encode(v, name)` / `Marshal(v)` (`name = []`, file format) -/
+structure EncCall where
+  network : Bool
+  name : Bytes
+  v : Option GoVal
+
+/-- `b_i, err_i := Marshal(v_i)` for every call, every `b_i` kept and looked at after the last call -/
+def marshalHist (cx : SnbtCarrier) (calls : List EncCall) : List (Res Bytes) :=
+  calls.map fun c => encode cx c.network c.name c.v
+
+/-- what call `c` appends to the writer of its `Encoder`: its document; if it fails, the part written before the
+failure was noticed — `part c`, about which nothing is said -/
+def encWritten (cx : SnbtCarrier) (part : EncCall → Bytes) (c : EncCall) : Bytes :=
+  match encode cx c.network c.name c.v with
+  | .ok bs => bs
+  | _ => part c
+
+/-- ONE `Encoder` on one `bytes.Buffer` holding `w`, the calls made one after the other: the buffer at the end -/
+def encoderHist (cx : SnbtCarrier) (part : EncCall → Bytes) (w : Bytes) : List EncCall → Bytes
+  | [] => w
+  | c :: cs => encoderHist cx part (w ++ encWritten cx part c) cs
 
 end GoMC.Model.Go
